@@ -211,6 +211,12 @@ func Execute(p *Plan, scratch string) (res *Result) {
 	if sim.BlockedRW > 0 {
 		res.Stats.Probes["RLock blocked by pending writer"] += int(sim.BlockedRW)
 	}
+	if sim.ChanOps > 0 {
+		res.Stats.Probes["real channel operations of the code under test (fallback)"] += int(sim.ChanOps)
+	}
+	if sim.ImplicitBlocks > 0 {
+		res.Stats.Probes["baton holder parked inside uninstrumented code (watchdog)"] += int(sim.ImplicitBlocks)
+	}
 	if sim.BlockedLock > 0 {
 		res.Stats.Probes["lock contention (task parked on a lock)"] += int(sim.BlockedLock)
 	}
